@@ -13,7 +13,17 @@ P = {'id': 'C07',
               'bump_alloc_aligned',
               'bump_refuses_over_capacity',
               'bump_align_refuted',
-              'fixedcap_live_disjoint_within'],
+              'fixedcap_live_disjoint_within',
+              'five_level_inv',
+              'five_level_refuses_over_capacity',
+              'five_level_refusal_exact',
+              'five_level_class_roundtrip',
+              'five_level_free_reuse',
+              'five_level_reissue_fits',
+              'five_level_used_exact',
+              'five_link_write_safe',
+              'five_offset_wrap_refuted',
+              'five_small_align_refuted'],
  'trusted': ['modelled (M+S): src/memory/lockfree_pool.rs (allocate, deallocate, allocate_from_fast_bin, deallocate_to_fast_bin, allocate_new_block, '
              'size_to_bin_index, align_size, ptr_to_offset; FAST_BIN_SIZES is read from the source by the harness and compared with the model table in every '
              'Coq-evaluated case), sequential semantics, free lists as stacks of offsets; src/memory/bump.rs (alloc_bytes, BumpScope drop) with the buffer '
